@@ -57,6 +57,17 @@ def run_one(text, bg, mode, large, vr):
 
 
 def eval_pair(job):
+    """One pair under all 12 settings, in a child forked from the pristine worker: the record depends on the pair only
+    (and on the fixed order of the 12 settings), never on which pairs the worker handled before."""
+    from mc.explore.forked import forked
+
+    status, rec = forked(_eval_pair_here, job)
+    if status != "ok":
+        raise RuntimeError("pair %r could not be evaluated: %s" % (job, rec))
+    return rec
+
+
+def _eval_pair_here(job):
     text, bg = job[0], job[1]
     install_chain_logger()
     rec = {"text": tuple(text), "bg": tuple(bg), "res": {}}
@@ -281,7 +292,7 @@ def judge_c16(rec):
 
 
 def rec_from_case(case):
-    return eval_pair((tuple(case["text"]), tuple(case["bg"])))
+    return _eval_pair_here((tuple(case["text"]), tuple(case["bg"])))
 
 
 def nontrivial(rec):
@@ -331,6 +342,15 @@ def spelled_jobs(tier, phase):
 
 
 def eval_spelled(job):
+    from mc.explore.forked import forked
+
+    status, rec = forked(_eval_spelled_here, job)
+    if status != "ok":
+        raise RuntimeError("spelled job %r could not be evaluated: %s" % (job, rec))
+    return rec
+
+
+def _eval_spelled_here(job):
     from cm_colors import ColorPair
 
     tval, bval, t, b, fmt, label = job
